@@ -1,7 +1,9 @@
 import sys, time, traceback, importlib
 sys.path.insert(0,'/verif')
 from pyvc.core import Session
-from pyvc.symex import Unsupported
+from pyvc.symex import Unsupported as U1
+from pyvc.hoare import Unsupported as U2
+Unsupported = (U1, U2)
 mod = importlib.import_module('contracts.'+sys.argv[1]); prop = sys.argv[1].upper() if sys.argv[1] != 'steps' else 'C18'
 only = sys.argv[2] if len(sys.argv)>2 else ''
 for name, m, qual, run in mod.targets():
@@ -13,7 +15,7 @@ for name, m, qual, run in mod.targets():
         print('UNSUPPORTED', name, e); 
     except Exception:
         traceback.print_exc()
-    bad=[o for o in s.obligations if (o.status=='discharged') == o.expect_refuted or (o.status not in ('discharged','refuted'))]
+    bad=[o for o in s.obligations if ((o.status=='discharged') if o.expect_refuted else (o.status!='discharged'))]
     print(f"{name}: {len(s.obligations)} obligations, {len(bad)} bad, {time.time()-t:.1f}s")
     for a in s.assumptions: print("  note:", a[:200])
     for o in bad: print('BAD', o.status, o.name, o.detail[:100], o.formula[:160])
